@@ -135,7 +135,7 @@ PROPS["C20"] = {
     "level": "other",
     "technique": "obligations generated from the AST of name_natural_key (pattern and numeral table read from the literals, turned into SMT regular-expression queries), shape contracts for the two sort functions; bounded exhaustive ordering oracle",
     "level_text": "Proved for every possible name: each token the split pattern can yield has a value (it is one of the numerals with a non-zero table value, or a non-empty run of decimal digits on which int() succeeds), so the key function never raises; the pattern has exactly one capturing group, so keys are positionally typed (text at even, int at odd positions) and tuple comparison is total; I/II/III/IV map to 1..4; every run of digits is one token; the output order key is (rank, natural key), so rank takes precedence. Bounded: that the resulting order is numeric-aware in the sense of the statement for whole names (tokenising oracle over all short names) and that an unloc sorts directly after its chromosome.",
-    "level_note": "Trusted: re.split with one capturing group alternates text and group matches; sorted/list.sort are stable total-preorder sorts; Python's \\d is read as [0-9] (int() also accepts the other Unicode decimal digits \\d matches). smart_sort_scaffolds needs every rank to be an int (input validity).",
+    "level_note": "Trusted: re.split with one capturing group alternates text and group matches; sorted/list.sort are stable total-preorder sorts; Python's \\d is read as [0-9] (int() also accepts the other Unicode decimal digits \\d matches). int() of a decimal string is modelled as always succeeding: CPython refuses strings of more than sys.get_int_max_str_digits() (4300) digits - names with such a digit run are the known finding C20-digit-run-over-int-limit, outside what the proof covers. smart_sort_scaffolds needs every rank to be an int (input validity).",
     "lemmas": [],
     "bounded": [("bounded.c20", {})],
     "trusted": PREDICATE_TRUSTED + ["translation of the re pattern literal to an SMT regular expression via re._parser (ASCII classes)", "re.split / sorted / tuple comparison builtin semantics"],
